@@ -408,6 +408,6 @@ def _describe(case):
 
 
 SUBCHECKS = {
-    "corpus": Sub("corpus", check_case, strategy=corpus_strategy, examples={"quick": 3, "thorough": 8}, describe=_describe, shrink_s=45.0),
-    "generated": Sub("generated", check_case, strategy=generated_strategy, examples={"quick": 12, "thorough": 120}, describe=_describe, shrink_s=45.0),
+    "corpus": Sub("corpus", check_case, strategy=corpus_strategy, examples={"quick": 3, "thorough": 6}, describe=_describe, shrink_s=45.0),
+    "generated": Sub("generated", check_case, strategy=generated_strategy, examples={"quick": 12, "thorough": 70}, describe=_describe, shrink_s=45.0),
 }
